@@ -22,11 +22,20 @@ def run_cases(ctx, label, cases):
         dt = J.print_doc(d, rng)
         ilines.append(json.dumps({"schema": st, "optional": bool(od), "ops": [["check"], ["validate", dt]]}))
     mod = vc.model_parallel("shape_model", mlines)
+    mach = vc.model_parallel("machine_model", mlines)       # the event-level tree of leaf validators (Schema/Machine.v)
     imp = vc.impl_parallel(["schema"], ilines)
     nb = 0
-    for (od, w, d), ml, il, m, i in zip(cases, mlines, ilines, mod, imp):
+    for (od, w, d), ml, il, m, mm, i in zip(cases, mlines, ilines, mod, mach, imp):
         ir = json.loads(i)
         ctx.evaluations += 1
+        if mm != "BAD" and len(ir) == 2 and ir[0] == "ok":
+            got_m = "ok" if ir[1] == "ok" else ir[1].split("@")[0]
+            mv_machine, mv_rec = mm.split(" ")
+            if mv_machine != got_m and len(ctx.violations) < 40:
+                c = json.loads(il)
+                ctx.report("Validate says %s, the event-level machine model says %s (recursive model: %s): schema %r document %r" % (ir[1], mv_machine, mv_rec, c["schema"][:160], c["ops"][1][1][:120]),
+                           "c01machine:" + ml, {"schema": c["schema"], "document": c["ops"][1][1], "implementation": ir[1], "machine_model": mv_machine, "recursive_model": mv_rec, "model_line": ml},
+                           case=(w, d), no_input=True)
         if m == "BAD" or len(ir) != 2:
             ctx.report("machinery: case not understood by model or harness: %s / %s" % (m, i[:200]), "c01:" + ml, {"model_line": ml, "impl_line": il}, no_input=True)
             continue
